@@ -378,7 +378,7 @@ fn check_c15_state(srv: &Srv, model: &[MConn], cl: &mut [CConn], e0: u64, n: usi
 pub fn c15(job: &Job, sh: &mut Shard, t0: Instant) {
     let plans: Vec<(usize, usize, usize)> = match job.tier {
         // (N, word length, max connections per word)
-        Tier::Quick => vec![(1, 6, 3), (2, 6, 3), (3, 5, 4)],
+        Tier::Quick => vec![(1, 6, 3), (2, 6, 3), (3, 4, 4)],
         Tier::Thorough => vec![(1, 7, 4), (2, 7, 4), (3, 6, 4), (2, 8, 4)],
     };
     C15_CYCLES.store(job.tier.pick(4, 24), Ordering::SeqCst);
@@ -1099,6 +1099,7 @@ pub fn c16_case(dir: &Path, states: &[CState], order: &[usize], at_limit: bool) 
         }
         // drive every connection into its state
         for (c, st) in states.iter().enumerate() {
+            let clones_before = srv.gate.clones();
             let mut s = srv.connect().map_err(|e| mach(format!("connect: {}", e)))?;
             let e0 = srv.epoch();
             match st {
@@ -1132,8 +1133,7 @@ pub fn c16_case(dir: &Path, states: &[CState], order: &[usize], at_limit: bool) 
                     }
                 }
                 CState::EndedPanic => {
-                    let clones0 = srv.gate.clones();
-                    if !srv.gate.wait_clones(clones0 + 1, T20) {
+                    if !srv.gate.wait_clones(clones_before + 1, T20) {
                         return Err(mach("setup: connection not accepted"));
                     }
                     srv.quiesce(e0);
